@@ -193,7 +193,9 @@ Inductive gevent :=
 | GStopCall (a w : nat) (targets : list nat)(* call w = a.stop() begins *)
 | GWake (w : nat)                           (* call w resumes from asyncio.wait() *)
 | GRet (w : nat) (r : wresult)              (* call w returned (WOk) or raised the group r *)
-| GRunCall (r : nat) (ws : list nat)        (* run(...) created its wait() tasks ws (the starts come before as GStart) *)
+| GRunCall (r : nat) (actors : list nat) (aws : list (nat * nat))
+     (* run(actors) (the starts come before as GStart) blocks on the wait() tasks aws = (actor, call);
+        it must wait on exactly one wait() per actor it was given (both lists sorted by actor) *)
 | GRunWake (r : nat) (done : list nat)      (* run resumes from asyncio.wait(FIRST_COMPLETED) with these done *)
 | GRunRet (r : nat).                        (* run returned *)
 
@@ -286,9 +288,10 @@ Definition gstep (c : config) (st : gstate) (t : Z) (e : gevent) : option gstate
       | Some F => if negb (g_ret st w) && wres_eqb (f_res F) r then Some (set_ret st (updn (g_ret st) w true)) else None
       | None => None
       end
-  | GRunCall r ws =>
+  | GRunCall r actors aws =>
       match g_run st r with
-      | None => Some (set_run st (updn (g_run st) r (Some (ws, ws))))
+      | None => if list_eqb Nat.eqb (map fst aws) actors
+                then Some (set_run st (updn (g_run st) r (Some (map snd aws, map snd aws)))) else None
       | Some _ => None
       end
   | GRunWake r done =>
